@@ -169,8 +169,9 @@ class Ctx:
         return False
 
     # ------------------------------------------------------------ correspondence
-    def corr(self, name, preamble, cases, shard=400, nontrivial=None, sample=3, timeout=COQC_TIMEOUT):
+    def corr(self, name, preamble, cases, shard=400, nontrivial=None, sample=3, timeout=COQC_TIMEOUT, ctype=None):
         """cases: list of (coq_term:str, py_obj) ; preamble must define `check` and `prop` : T -> bool.
+           ctype: optional Coq type of one case (then `cases : list ctype`, so shards made only of empty lists / None still type-check).
            Returns (mismatch_cases, violation_cases) as lists of py_obj."""
         if not cases:
             return [], []
@@ -179,7 +180,7 @@ class Ctx:
         shards = [cases[i:i + shard] for i in range(0, len(cases), shard)]
         for k, shd in enumerate(shards):
             with open(os.path.join(d, "cases_%d.v" % k), "w") as f:
-                f.write("From IQ Require Import CorrSupport.\n" + preamble + "\nDefinition cases := [\n")
+                f.write("From IQ Require Import CorrSupport.\n" + preamble + ("\nDefinition cases : list (%s) := [\n" % ctype if ctype else "\nDefinition cases := [\n"))
                 f.write(";\n".join(c for c, _ in shd))
                 f.write("].\nEval vm_compute in (Result (find_idx (fun c => negb (check c)) cases 0%nat) (find_idx (fun c => negb (prop c)) cases 0%nat)).\n")
         def run(k):
